@@ -200,7 +200,7 @@ def oracle_c01(script, outcome, recs, hdr_ok, trailing):
     return problems
 
 
-def run_engine(res, prep, scripts, oracle, tag, env_extra=None, extra=None):
+def run_engine(res, prep, scripts, oracle, tag, env_extra=None, extra=None, fault_may_abort=False):
     """Run scripts through real libovni and the Lean model; byte-compare;
     evaluate the oracle. Returns True if a concrete violation was found."""
     found = False
@@ -239,6 +239,11 @@ def run_engine(res, prep, scripts, oracle, tag, env_extra=None, extra=None):
                     res.violation(f"{tag}:crash:" + sc[:80], f"libovni crashed ({outcome}) on script", sc + "\n# " + err[-800:])
                     continue
                 dis = None
+                if fault_may_abort and outcome.startswith("die"):
+                    # an injected error may make the runtime abort with a diagnostic (that is C10's
+                    # subject): no stream is claimed complete, nothing to compare
+                    res.dist("fault:aborted")
+                    continue
                 if moc != outcome:
                     dis = f"outcome impl={outcome} model={moc}"
                 elif mbytes != data:
@@ -297,6 +302,12 @@ def check(res, tier, replay=None):
                 res.dist("pass:short-write-%d" % n)
                 found = run_engine(res, prep, sub, oracle_c01, "c01-short%d" % n,
                                    env_extra={"RT_FAULT": "write:%d:short" % n}) or found
+            # ... and when the N-th write() is interrupted (EINTR): the runtime may abort with a diagnostic,
+            # but if it returns the file must be byte-identical
+            for n in ((1, 2, 3) if tier == "quick" else range(1, 8)):
+                res.dist("pass:eintr-write-%d" % n)
+                found = run_engine(res, prep, sub[: (20 if tier == "quick" else 200)], oracle_c01, "c01-eintr%d" % n,
+                                   env_extra={"RT_FAULT": "write:%d:EINTR" % n}, fault_may_abort=True) or found
         for b in res.cov.get("correspondence_breaks", [])[:3]:
             proved = False
             res.failed_obligations = getattr(res, "failed_obligations", []) + ["correspondence rt: " + b["what"] + " on: " + b["script"]]
